@@ -283,6 +283,17 @@ def run(ctx):
     for name in COUNTS:
         ctx.run(f"C12.count.{name}", longer, chunk=50)
     ctx.rules.append("C12.op.* and C12.count.* additionally on seeded permutations of length 9-14")
+    # block-structured long inputs (direct / skew sums of short blocks): several strong fixed points / sum
+    # components at positions >= 8, the inputs on which the recursive operators split more than once
+    blocky = D.block_perms(rng, 400 if quick else 3000, lo=9, hi=20)
+    for name in OPS:
+        ctx.run(f"C12.op.{name}", blocky, chunk=50, rule=None)
+    for name in SORTABLE:
+        ctx.run(f"C12.sortable.{name}", blocky, chunk=50, rule=None)
+    for name in COUNTS:
+        ctx.run(f"C12.count.{name}", blocky, chunk=50, rule=None)
+    ctx.rules.append(f"C12.op.* / C12.sortable.* / C12.count.* additionally on {len(blocky)} seeded block-structured "
+                     "permutations of length 9-20 (direct/skew sums of blocks of length <= 6)")
 
     # ---- Simion-Schmidt
     for chk, patt in (("forward", DV.P123), ("inverse", DV.P132)):
